@@ -237,6 +237,7 @@ type c20World struct {
 	cmdx, cmst, harbor, atom uint64
 	pairCmdx, pairAtom       uint64
 	epA, epB                 uint64
+	usdc, epS                uint64 // stable-mint asset and extended pair (scenarios with rewards)
 	liqPair, liqPool         uint64
 	users                    []sdk.AccAddress
 }
@@ -251,7 +252,7 @@ func c20Balances(w *c20World, ctx sdk.Context) map[string]sdk.Int {
 			out[fmt.Sprintf("u%d/%s", i, c.Denom)] = c.Amount
 		}
 	}
-	for _, m := range []string{"vaultV1", "lockerV1", "collectorV1", "liquidityV1", "esmV1"} {
+	for _, m := range []string{"vaultV1", "lockerV1", "collectorV1", "liquidityV1", "esmV1", "rewardsV1", "auctionV1"} {
 		for _, c := range w.a.BankKeeper.GetAllBalances(ctx, modAddr(m)) {
 			out[m+"/"+c.Denom] = c.Amount
 		}
@@ -389,6 +390,21 @@ func c20Populate(w *c20World, ctx sdk.Context, sc c20Scenario, tr *tracer) {
 	}
 	if sc.withRewards {
 		_ = a.Rewardskeeper.WhitelistAppIDVault(ctx, w.app1)
+		// a stable-mint vault of an app that is white-listed for rewards: MsgCreateStableMint records the
+		// minter under StableVaultRewardsKeyPrefix
+		w.usdc = addAsset(t, a, ctx, "USDC", "uusdc", 1000000, false, false)
+		ps := addPair(t, a, ctx, w.usdc, w.cmst)
+		w.epS = addExtPair(t, a, ctx, extPairCfg{Name: "USDC-PSM", App: w.app1, Pair: ps, StabilityFee: sdk.ZeroDec(), ClosingFee: sdk.ZeroDec(),
+			LiqPenalty: sdk.ZeroDec(), DrawDownFee: sdk.NewDecWithPrec(1, 2), MinCr: sdk.OneDec(), DebtCeiling: sdk.NewInt(1000000000000), DebtFloor: sdk.NewInt(1000000),
+			Stable: true, Active: true, OraclePrice: false, AssetOutPrice: 1000000, MinUsdValLeft: 100000})
+		fund(t, a, ctx, w.users[5], sdk.NewCoins(sdk.NewCoin("uusdc", sdk.NewInt(100000000000))))
+		// external rewards for the stable-mint vaults of the app (a user message; the reward coins go to
+		// the rewards module account)
+		c0, err0, _ := execMsg(a, ctx, &rewardstypes.ActivateExternalRewardsStableMint{AppId: w.app1, CswapAppId: w.app2, CommodoAppId: w.app2, DurationDays: 3,
+			AcceptedBlockHeight: 1, TotalRewards: sdk.NewCoin("uharbor", sdk.NewInt(1000000000)), Depositor: w.users[4].String()})
+		must("stable-mint external rewards", c0, err0)
+		c, err, _ := execMsg(a, ctx, vaulttypes.NewMsgCreateStableMintRequest(w.users[5], w.app1, w.epS, sdk.NewInt(sc.amt*5)))
+		must("stable mint", c, err)
 		if sc.nLockers > 0 {
 			_ = a.Rewardskeeper.WhitelistAssetForInternalRewards(ctx, w.app1, w.cmst)
 		}
@@ -406,7 +422,7 @@ func c20Populate(w *c20World, ctx sdk.Context, sc c20Scenario, tr *tracer) {
 		if err != nil {
 			t.Fatalf("liquidity params: %v", err)
 		}
-		fund(t, a, ctx, w.users[6], params.PairCreationFee.Add(params.PoolCreationFee...))
+		fund(t, a, ctx, w.users[6], params.PairCreationFee.Add(params.PairCreationFee...).Add(params.PoolCreationFee...))
 		c, err2, _ := execMsg(a, ctx, liquiditytypes.NewMsgCreatePair(w.app1, w.users[6], "ucmdx", "ucmst"))
 		must("liquidity pair", c, err2)
 		w.liqPair = a.LiquidityKeeper.GetLastPairID(ctx, w.app1)
@@ -414,6 +430,9 @@ func c20Populate(w *c20World, ctx sdk.Context, sc c20Scenario, tr *tracer) {
 			sdk.NewCoins(sdk.NewCoin("ucmdx", sdk.NewInt(1000000000)), sdk.NewCoin("ucmst", sdk.NewInt(2000000000)))))
 		must("liquidity pool", c, err2)
 		w.liqPool = a.LiquidityKeeper.GetLastPoolID(ctx, w.app1)
+		// a second pair without a pool: the pair id counter and the pool id counter differ
+		c, err2, _ = execMsg(a, ctx, liquiditytypes.NewMsgCreatePair(w.app1, w.users[6], "uharbor", "ucmst"))
+		must("liquidity pair 2", c, err2)
 		for i := 0; i < sc.nOrders; i++ {
 			price := sdk.NewDecWithPrec(190+int64(i), 2)
 			c, err2, _ = execMsg(a, ctx, liquiditytypes.NewMsgLimitOrder(w.app1, w.users[i%4], w.liqPair, liquiditytypes.OrderDirectionBuy,
@@ -582,6 +601,28 @@ func c20Continuation(w *c20World, sc c20Scenario) []c20Step {
 		if sc.nOrders > 0 {
 			steps = append(steps, c20Step{"liquidity.cancel", "liquidity", 179, msg(liquiditytypes.NewMsgCancelOrder(w.app1, u[0], w.liqPair, 1)), none})
 		}
+	}
+	if sc.withRewards {
+		steps = append(steps,
+			c20Step{"vault.stable-rewards", "vault", 24, func(ctx sdk.Context) string {
+				if rs, ok := a.VaultKeeper.GetStableMintVaultUserRewards(ctx, w.app1, u[5].String()); ok && len(rs) > 0 {
+					return "ok"
+				}
+				return "err"
+			}, func(ctx sdk.Context) uint64 {
+				rs, _ := a.VaultKeeper.GetStableMintVaultUserRewards(ctx, w.app1, u[5].String())
+				return uint64(len(rs))
+			}},
+			c20Step{"rewards.stable-ext", "rewards", 41, func(ctx sdk.Context) string { return "ok" }, func(ctx sdk.Context) uint64 {
+				return uint64(len(a.Rewardskeeper.GetAllExternalRewardStableVault(ctx)))
+			}},
+			c20Step{"vault.stable-vault", "vault", 20, func(ctx sdk.Context) string {
+				if _, ok := a.VaultKeeper.GetStableMintVault(ctx, 1); ok {
+					return "ok"
+				}
+				return "err"
+			}, func(ctx sdk.Context) uint64 { return a.VaultKeeper.GetIDForStableVault(ctx) }},
+		)
 	}
 	if sc.withEsm {
 		steps = append(steps, c20Step{"esm.params", "esm", 1, func(ctx sdk.Context) string {
